@@ -42,6 +42,8 @@ class Prog:
         """identifier by which files of this program refer to logical package pkg"""
         nm = self.pkgmap[pkg]["name"]
         clash = [q for q in self.pkgs if q != pkg and self.pkgmap[q]["name"] == nm]
+        if nm == "init":
+            return "init" + "X" + pkg        # a package called init can only be imported under another name
         return nm if not clash else "%sX%s" % (nm, pkg)
 
     def path(self, pkg):
